@@ -34,7 +34,7 @@ ORACLE_PREMISES = [
 MODELLED = ('sr/value_types.py ContentSequence.__init__, append, extend, __iadd__, insert, __setitem__, '
             '__delitem__, index, __contains__, find, get_nodes, is_root, is_sr (pydicom Sequence = Python list, '
             're-modelled; ContentItem abstracted to is-item/name/relationship/container/node/payload)')
-STRATA = ['hist_sr', 'hist_root', 'hist_nonsr', 'init_err', 'eq', 'slice']
+STRATA = ['hist_sr', 'hist_root', 'hist_nonsr', 'init_err', 'init_via', 'eq', 'slice']
 RULE = ('random operation histories (length <= 12, plus systematic 2-operation histories) over items with 3 names '
         'x 2 spellings x 3 relationship states x container/text x node/leaf x small payloads (so equal items '
         'recur) on root / non-root SR / non-SR sequences; boundary-biased positions and slices (None, 0, +-len, '
@@ -350,6 +350,19 @@ def gen_cases(rng, tier):
                 'ops': [['append', gen_item(rng, root, sr)]], 'find_code': False, 'reuse': False}
         case['qs'] = probes(rng, case)
         cases.append(case)
+    # construction FROM an existing ContentSequence of another (or the same) kind: the items were
+    # valid where they come from; the rule of the NEW sequence must still be applied to each of them
+    for i in range(nh // 8):
+        sr = i % 5 != 4
+        vroot = bool(i % 2) and sr
+        root = (not vroot if i % 3 else vroot) and sr
+        init = gen_init(rng, vroot, sr, valid=True)
+        if not init:
+            init = gen_init(rng, vroot, sr, valid=True) or init
+        case = {'kind': 'init_via', 'root': root, 'sr': sr, 'init': init, 'via': [vroot, sr],
+                'ops': [['append', gen_item(rng, root, sr)]], 'find_code': False, 'reuse': False}
+        case['qs'] = probes(rng, case)
+        cases.append(case)
     for _ in range(nh // 6):
         a = gen_item(rng, rng.random() < 0.5, True, p_bad=0.4, p_junk=0)
         b = dict(a)
@@ -439,7 +452,12 @@ def run_impl(c):
                 cache[key] = build(it)
             return cache[key]
         return build(it)
-    seq = catch(lambda: ContentSequence([mk(i) for i in c['init']], is_root=c['root'], is_sr=c['sr']))
+    items0 = [mk(i) for i in c['init']]
+    if c.get('via'):
+        via = catch(lambda: ContentSequence(items0, is_root=c['via'][0], is_sr=c['via'][1]))
+        if not isinstance(via, Err):
+            items0 = via
+    seq = catch(lambda: ContentSequence(items0, is_root=c['root'], is_sr=c['sr']))
     if isinstance(seq, Err):
         return seq
     out = [_observe(seq, c, mk)]
